@@ -91,17 +91,27 @@ Print Assumptions C16_polyeval_comptime_values_distinguish.
 
 (* Comptime values are compared with Lua's `~=`, so the model's value ids are ==-classes.  Over RAW values
    ([cls] maps a raw value to its class) the full statement "calls that differ in a comptime value get
-   distinct specialisations" holds iff no two raw values share a class - and 0.0 == -0.0 do: the open
-   finding replayed by the polyc stream (poly-comptime-signed-zero). *)
+   distinct specialisations" holds iff no two raw values share a class; Lua's == puts 0.0 and -0.0 in one
+   class (the defect repaired by cab9725; its witness is replayed by the polyc stream on every run). *)
 Definition C16_polyeval_distinct_values_full (cls : Z -> Z) : Prop := distinct_raw_values_distinct_specialisations cls.
-Theorem C16_polyeval_lua_equal_values_share_refuted :
+Theorem C16_value_comparison_must_separate_values :
   forall cls, (exists r r', r <> r' /\ cls r = cls r') -> ~ C16_polyeval_distinct_values_full cls.
 Proof. exact lua_equal_values_share_refuted_lemma. Qed.
-Print Assumptions C16_polyeval_lua_equal_values_share_refuted.
+Print Assumptions C16_value_comparison_must_separate_values.
 Theorem C16_polyeval_distinct_values_partial :
   forall cls, (forall r r', cls r = cls r' -> r = r') -> C16_polyeval_distinct_values_full cls.
 Proof. exact distinct_raw_values_lemma. Qed.
 Print Assumptions C16_polyeval_distinct_values_partial.
+
+(* MAIN: for the code as it is (since cab9725 poly_args_matches compares compile-time values through
+   same_comptime_value, which tells 0.0 from -0.0; Gen.POLY_DISTINGUISHES_SIGNED_ZERO, checked by
+   computation: on a revert this proof no longer checks) calls that differ in a raw compile-time value -
+   the replayer's values, 0.0 and -0.0 included - get distinct specialisations *)
+Theorem C16_polyeval_signed_zero :
+  POLY_DISTINGUISHES_SIGNED_ZERO = true /\
+  C16_polyeval_distinct_values_full (raw_cls POLY_DISTINGUISHES_SIGNED_ZERO).
+Proof. split; [reflexivity|exact (raw_cls_spec true)]. Qed.
+Print Assumptions C16_polyeval_signed_zero.
 
 (* hygiene: inside a hygienized call a free name bound at definition time resolves to that
    binding whatever the use site holds; the checkpoint stack is restored *)
